@@ -4,6 +4,7 @@ import (
 	"encoding/json"
 	"fmt"
 	"os"
+	"strconv"
 	"strings"
 	"testing"
 	"time"
@@ -34,6 +35,10 @@ type crashOutcome struct {
 	failing    *Inject
 	trace      []string
 	kind       string
+	// followUps counts the unrelated commands run after a kill; followUpFailed those that
+	// exited non-zero (not judged here: C03 owns "later mutations succeed")
+	followUps      int
+	followUpFailed int
 }
 
 // runAtomicity executes the C04 experiment for one command instance: every kill point
@@ -106,6 +111,27 @@ func runAtomicityFor(prop string, w *World, pre *Snapshot, target Op, only *Inje
 			}
 			oc.viol = append(oc.viol, Violation{prop, fmt.Sprintf("after %s (%s) the store is neither the state before nor the state after the command; nearest is the %s: %s", inj, describeKill(base.Calls, completed), which, clip(strings.Join(d, "; "), 600))})
 			oc.failing = &inj
+		}
+		if oc.failing == nil {
+			// the crash is over, life goes on: one further, unrelated command must leave
+			// everything else as the kill left it (what the dead process left lying around -
+			// a half-written temp file, say - must not come into effect later)
+			title := "after the crash " + strconv.Itoa(oc.points)
+			fr := Run(Cmd{Args: []string{"--json", "new", "task", "--title", title}, Dir: k.Root, Mode: StdinDevNull})
+			oc.followUps++
+			if snap2, err := TakeSnapshot(k.Root); err != nil {
+				oc.viol = append(oc.viol, Violation{prop, fmt.Sprintf("after %s and one further command (`new task`, exit %d) the store cannot be read: %v", inj, fr.Code, err)})
+				oc.failing = &inj
+			} else if fr.OK() {
+				c2 := CanonSnap(snap2, pre, k.Root)
+				delete(c2, "new:"+title)
+				if d := canonDiff(c2, cK); len(d) > 0 {
+					oc.viol = append(oc.viol, Violation{prop, fmt.Sprintf("after %s (%s) the store showed the state %s the command; one unrelated `new task` later it shows neither: %s", inj, describeKill(base.Calls, completed), map[bool]string{true: "before", false: "after"}[len(dPre) == 0], clip(strings.Join(d, "; "), 600))})
+					oc.failing = &inj
+				}
+			} else {
+				oc.followUpFailed++
+			}
 		}
 		RemoveAll(k.Root)
 		if oc.failing != nil {
@@ -216,6 +242,8 @@ func runCrashTest(t *testing.T, prop, test, rule string, gen func(rt *rapid.T, w
 		stats.Label("cmd." + target.Kind)
 		stats.LabelN("kill_points", oc.points)
 		stats.LabelN("kills_landed", oc.killed)
+		stats.LabelN("follow_up_commands_after_a_kill", oc.followUps)
+		stats.LabelN("follow_up_commands_that_failed", oc.followUpFailed)
 		for _, n := range oc.nontrivial {
 			stats.NonTrivial(n)
 		}
@@ -314,7 +342,7 @@ func runBulkPruneCrash(t *testing.T, prop, test string) {
 		}
 		return
 	}
-	stats := NewStats(prop, "CRASH/bulk-prune", "stores with 18-170 finished tasks spread over 3-12 epics (built by plans, marked done) and a few open ones; `prune --yes` is killed by SIGKILL before each system call it issues on the store's files; after each kill the store must show the state before or the state after - never some items pruned and others not, never a live task under a pruned epic; non-trivial = more than 64 items are pruned and the kill landed between the first and last mutating call; distinct = (sizes, kill position)")
+	stats := NewStats(prop, "CRASH/bulk-prune", "stores with 18-170 finished tasks spread over 3-12 epics (built by plans, marked done) and a few open ones; `prune --yes` (for C04 / C14 in a third of the cases `compact`) is killed by SIGKILL before each system call it issues on the store's files; after each kill the store must show the state before or the state after - never some items pruned and others not, never a live task under a pruned epic; non-trivial = more than 64 items are pruned (or the command is compact) and the kill landed between the first and last mutating call; distinct = (sizes, kill position)")
 	defer stats.Flush()
 	replayPath := ReplayOutPath(prop)
 	rapid.Check(t, func(rt *rapid.T) {
@@ -327,6 +355,12 @@ func runBulkPruneCrash(t *testing.T, prop, test string) {
 			return
 		}
 		target := Op{Kind: "prune_yes", N: 900}
+		if prop != "C09" && pct(rt, 35, "bulk.compact") {
+			// the other command that rewrites many items at once: a compaction of a log far
+			// larger than one buffered write
+			target = Op{Kind: "compact", N: 900}
+			stats.Label("target.compact")
+		}
 		oc := runAtomicityFor(prop, w, pre, target, nil)
 		if len(oc.viol) > 0 {
 			for _, v := range CheckInvariants(pre) {
@@ -338,8 +372,10 @@ func runBulkPruneCrash(t *testing.T, prop, test string) {
 		stats.Eval()
 		stats.LabelN("kill_points", oc.points)
 		stats.LabelN("items_in_store", len(pre.Items))
-		if len(PruneSet(pre)) > 64 {
-			stats.Label("prunes_more_than_64_items")
+		if len(PruneSet(pre)) > 64 || target.Kind == "compact" {
+			if target.Kind != "compact" {
+				stats.Label("prunes_more_than_64_items")
+			}
 			for _, n := range oc.nontrivial {
 				stats.NonTrivial(fmt.Sprintf("%d:%s", len(pre.Items), n))
 			}
